@@ -52,6 +52,26 @@ def lean_build() -> tuple[bool, str]:
     return p.returncode == 0, (p.stdout + p.stderr)[-4000:]
 
 
+def _import_closure(mod: str, seen: set[str]) -> None:
+    if mod in seen:
+        return
+    seen.add(mod)
+    f = LEAN / (mod.replace(".", "/") + ".lean")
+    for m in re.findall(r"^import\s+(HG\.[\w.]+)", f.read_text(), flags=re.M):
+        _import_closure(m, seen)
+
+
+def lean_recheck(prop: str) -> dict:
+    """Thorough tier: the independent re-checker replays the compiled modules the property's theorems live in and depend on."""
+    index = json.loads((LEAN / "props_index.json").read_text())
+    mods: set[str] = set()
+    for m in index.get(prop, {}).get("modules", []):
+        _import_closure(m, mods)
+    t0 = time.time()
+    p = subprocess.run(["lake", "env", "leanchecker"] + sorted(mods), cwd=LEAN, capture_output=True, text=True)
+    return {"modules": len(mods), "ok": p.returncode == 0, "seconds": round(time.time() - t0, 1), "output": (p.stdout + p.stderr)[-1500:]}
+
+
 def lean_audit(prop: str) -> dict:
     """Re-check the property's theorems: build, forbidden-token grep, `#print axioms` per theorem."""
     index = json.loads((LEAN / "props_index.json").read_text())
@@ -239,6 +259,12 @@ def run_check(prop: Prop, tier: str, seed: int, replay: str | None = None) -> in
         old.unlink()          # replay files always belong to the run that wrote them
     rng = random.Random(seed * 1000003 + int(prop.id[1:]))
     audit = lean_audit(prop.id)
+    if tier == "thorough" and not replay and not audit["failed"]:
+        rc = lean_recheck(prop.id)
+        audit["leanchecker"] = {k: rc[k] for k in ("modules", "ok", "seconds")}
+        if not rc["ok"]:
+            audit["failed"] = [t["name"] for t in audit["theorems"]]
+            audit["build_error"] = "leanchecker rejected the compiled modules: " + rc["output"]
     driver = common.Driver()
     max_viol = 3
     try:
@@ -336,6 +362,8 @@ def finish(rep: Report, audit: dict) -> int:
         "known_findings_reproduced": sorted(rep.known_hits),
         "repo": str(common.REPO),
     }
+    if "leanchecker" in audit:
+        cov["leanchecker"] = audit["leanchecker"]
     if prop.level == "translation_validation":
         cov["programs"] = rep.evals
     ev = {
